@@ -425,7 +425,7 @@ func (r *Runner) Run() {
 		"events": r.stats.events, "first_use": r.stats.firstUse, "max_live": r.stats.maxLive, "extents": r.stats.checkedExtents, "sweeps": r.stats.sweeps,
 		"dec_ok": r.stats.decOK, "dec_err": r.stats.decErr, "enc_ok": r.stats.encOK, "enc_err": r.stats.encErr, "size_ok": r.stats.sizeOK,
 		"size_panic": r.stats.sizePanic, "legacy": r.stats.legacy, "blocked_acq": res.BlockedAcq, "task_steps": res.TaskSteps,
-		"race_build": verifsim.RaceBuild, "go": runtime.Version(),
+		"race_build": verifsim.RaceBuild, "go": runtime.Version(), "rounds": rounds,
 	}
 	if len(res.SwitchLog) > 0 && len(res.SwitchLog) <= 400 {
 		var sw []int64
